@@ -414,3 +414,65 @@ EQUIVALENT.append(('compiler_include_relative_to_includer', ['C04'], CO,
      """        if not self.path:
             self.path = os.path.dirname(os.path.abspath(malfile))""",
      'equivalent: absolute path of the first file'))
+
+# ---- translators / ingestor (C18, C19) -------------------------------------------
+N4_SIG_NEW = """        assoc_name = lang_classes_factory.get_association_by_signature(
+            assoc.name,
+            assoc.left_field.asset.name,
+            assoc.right_field.asset.name
+        )"""
+N4_SIG_OLD = """        assoc_name = lang_classes_factory.get_association_by_signature(
+            assoc.name,
+            left_asset.type,
+            right_asset.type
+        )"""
+MUTANTS += [
+    ('fixrev_scad_entry_points', ['C18'], SC,
+     """            attacker.add_entry_point(target_asset,
+                target_prop.split('.')[0])""",
+     """            attacker.entry_points.append((target_asset,
+                [target_prop.split('.')[0]]))""", 'revert 6b2bc85'),
+    ('fixrev_scad_signature', ['C18'], SC,
+     """            lang_graph_assoc.left_field.asset.name,
+            lang_graph_assoc.right_field.asset.name""",
+     """            left_asset.type,
+            right_asset.type""", 'revert 6286a5f'),
+    ('fixrev_neo_cross_product', ['C19'], N4,
+     """                left_field, right_field
+            )
+            continue""",
+     """                left_field, right_field
+            )
+            return None""", 'revert be9cb72'),
+    ('fixrev_neo_mirrored', ['C19'], N4,
+     """        if not instance_model.association_exists_between_assets(
+            assoc_name,
+            getattr(assoc, first_field)[0],
+            getattr(assoc, second_field)[0]
+        ):""",
+     """        if not (instance_model.association_exists_between_assets(
+            assoc_name, left_asset, right_asset
+        ) or instance_model.association_exists_between_assets(
+            assoc_name, right_asset, left_asset
+        )):""", 'revert f0d3082'),
+    ('fixrev_neo_signature', ['C19'], N4, N4_SIG_NEW, N4_SIG_OLD, 'revert 1a69815'),
+    ('neo_one_direction_only', ['C19'], N4,
+     """                rels.append(Relationship(nodes[str(second_asset.id)],
+                    str(secondElementName),
+                    nodes[str(first_asset.id)]))
+""", "", 'ingest_model emits one direction only'),
+    ('neo_graph_ingest_skips_leaf_edges', ['C19'], N4,
+     """        for child in node.children:
+            rels.append(Relationship(nodes[node.id], nodes[child.id]))""",
+     """        for child in node.children:
+            if child.children:
+                rels.append(Relationship(nodes[node.id], nodes[child.id]))""",
+     'edges into leaf steps are not exported'),
+    ('updater_defense_default_skipped', ['C18'], UP,
+     "                setattr(asset, defense, float(defenses[defense]))",
+     "                if float(defenses[defense]):\n                    setattr(asset, defense, float(defenses[defense]))",
+     '0.0.39 loader ignores defenses given as 0 (matters when the default is 1)'),
+    ('scad_negative_id_abs', ['C18'], SC,
+     "        asset_id = int(child.attrib['id'])",
+     "        asset_id = abs(int(child.attrib['id']))", 'negative ids are made positive'),
+]
